@@ -17,15 +17,18 @@ import (
 	"fmt"
 	"os"
 	"runtime"
+	"strings"
 	"sync"
 
 	"verifharness/conc"
 	"verifharness/vt"
 
 	"github.com/tink-crypto/tink-go/v2/aead"
+	"github.com/tink-crypto/tink-go/v2/aead/aesgcm"
 	"github.com/tink-crypto/tink-go/v2/hybrid"
 	"github.com/tink-crypto/tink-go/v2/jwt"
 	"github.com/tink-crypto/tink-go/v2/keyset"
+	"github.com/tink-crypto/tink-go/v2/secretdata"
 	"github.com/tink-crypto/tink-go/v2/signature"
 	"github.com/tink-crypto/tink-go/v2/streamingaead"
 )
@@ -39,12 +42,13 @@ const (
 
 // block is one per-key history in keys.json.
 type block struct {
-	Key    string         `json:"key"`
-	Kind   string         `json:"kind"` // aead stream hpke ecies sig keyid keygen
-	Cfg    map[string]any `json:"cfg"`
-	Target string         `json:"target"` // name in conc.Targets
-	N      int            `json:"n"`      // calls over all processes
-	Keyset string         `json:"keyset"` // hex export (empty for keyid / keygen)
+	Key     string         `json:"key"`
+	Kind    string         `json:"kind"` // aead stream hpke ecies sig keyid keygen
+	Cfg     map[string]any `json:"cfg"`
+	Target  string         `json:"target"`  // name in conc.Targets
+	N       int            `json:"n"`       // calls over all processes
+	Keyset  string         `json:"keyset"`  // hex export (empty for keyid / keygen)
+	Classes []string       `json:"classes"` // input classes the calls rotate through
 }
 
 type keysFile struct {
@@ -96,7 +100,7 @@ func initKeys(path, only string) {
 				vt.Fatal("generate %s: %v", t.Name, err)
 			}
 			mu.Lock()
-			blocks[i] = &block{Key: t.Name, Kind: t.Kind, Cfg: t.Cfg, Target: t.Name, N: callsFor(t, full), Keyset: vt.Hex(conc.Export(h))}
+			blocks[i] = &block{Key: t.Name, Kind: t.Kind, Cfg: t.Cfg, Target: t.Name, N: callsFor(t, full), Keyset: vt.Hex(conc.Export(h)), Classes: classNames()}
 			mu.Unlock()
 		}(i, t)
 	}
@@ -111,14 +115,14 @@ func initKeys(path, only string) {
 		idn = 4096
 	}
 	if only == "" || only == "keyid" {
-		kf.Blocks = append(kf.Blocks, block{Key: "keyid", Kind: "keyid", Cfg: map[string]any{"variant": "NO_PREFIX"}, N: idn})
+		kf.Blocks = append(kf.Blocks, block{Key: "keyid", Kind: "keyid", Cfg: map[string]any{"variant": "NO_PREFIX"}, N: idn, Classes: []string{}})
 	}
 	for _, t := range ts {
 		k := "keygen/" + t.Name
 		if only != "" && only != k {
 			continue
 		}
-		kf.Blocks = append(kf.Blocks, block{Key: k, Kind: "keygen", Cfg: map[string]any{"variant": "NO_PREFIX"}, Target: t.Name, N: keygenFor(t, full)})
+		kf.Blocks = append(kf.Blocks, block{Key: k, Kind: "keygen", Cfg: map[string]any{"variant": "NO_PREFIX"}, Target: t.Name, N: keygenFor(t, full), Classes: []string{}})
 	}
 	b, _ := json.Marshal(kf)
 	if err := os.WriteFile(path, b, 0o600); err != nil {
@@ -127,47 +131,91 @@ func initKeys(path, only string) {
 	fmt.Printf("c20: %d key histories planned (%s)\n", len(kf.Blocks), kf.Tier)
 }
 
+// The calls of one key rotate through INPUT CLASSES: the message / plaintext length (an empty input is
+// where an input-dependent fast path skips the draw); within a class the message is the same every
+// time ("repeated signing of one message"). The associated data / context info rotates independently.
 var (
-	msg = []byte("the same message every time")
-	ad  = []byte("associated data")
+	lens = []int{0, 1, 15, 16, 17, 100}
+	ads  = [][]byte{nil, {}, []byte("associated data")}
 )
 
-// caller returns a function performing one randomized call on a NEW primitive instance made from h.
-func caller(t *conc.Target, h *keyset.Handle) func() []byte {
+func classNames() []string {
+	out := make([]string, len(lens))
+	for i, n := range lens {
+		out[i] = fmt.Sprintf("len%d", n)
+	}
+	return out
+}
+
+// input returns the i-th call's message, associated data and class name.
+func input(i int) ([]byte, []byte, string) {
+	n := lens[i%len(lens)]
+	return bytes.Repeat([]byte{'m'}, n), ads[(i/len(lens))%len(ads)], fmt.Sprintf("len%d", n)
+}
+
+// caller returns a function performing the i-th randomized call on a NEW primitive instance made from h.
+func caller(t *conc.Target, h *keyset.Handle) func(i int) ([]byte, string) {
 	switch t.Class {
 	case "aead":
 		p, err := aead.New(h)
 		chk(t, err)
-		return func() []byte { c, err := p.Encrypt(msg, ad); chk(t, err); return c }
+		return func(i int) ([]byte, string) {
+			msg, ad, cls := input(i)
+			c, err := p.Encrypt(msg, ad)
+			chk(t, err)
+			return c, cls
+		}
 	case "saead":
 		p, err := streamingaead.New(h)
 		chk(t, err)
-		return func() []byte {
+		return func(i int) ([]byte, string) {
+			msg, ad, cls := input(i)
 			var b bytes.Buffer
 			w, err := p.NewEncryptingWriter(&b, ad)
 			chk(t, err)
-			_, err = w.Write(msg)
-			chk(t, err)
+			if len(msg) > 0 { // the empty stream: no Write at all
+				_, err = w.Write(msg)
+				chk(t, err)
+			}
 			chk(t, w.Close())
-			return b.Bytes()
+			return b.Bytes(), cls
 		}
 	case "hybrid":
 		pub, err := h.Public()
 		chk(t, err)
 		p, err := hybrid.NewHybridEncrypt(pub)
 		chk(t, err)
-		return func() []byte { c, err := p.Encrypt(msg, ad); chk(t, err); return c }
+		return func(i int) ([]byte, string) {
+			msg, ctx, cls := input(i)
+			c, err := p.Encrypt(msg, ctx)
+			chk(t, err)
+			return c, cls
+		}
 	case "sig":
 		p, err := signature.NewSigner(h)
 		chk(t, err)
-		return func() []byte { s, err := p.Sign(msg); chk(t, err); return s }
+		return func(i int) ([]byte, string) {
+			msg, _, cls := input(i)
+			s, err := p.Sign(msg)
+			chk(t, err)
+			return s, cls
+		}
 	case "jwtsig":
 		p, err := jwt.NewSigner(h)
 		chk(t, err)
-		sub := "subject"
-		raw, err := jwt.NewRawJWT(&jwt.RawJWTOptions{Subject: &sub, WithoutExpiration: true})
-		chk(t, err)
-		return func() []byte { s, err := p.SignAndEncode(raw); chk(t, err); return []byte(s) }
+		raws := make([]*jwt.RawJWT, len(lens))
+		for k, n := range lens {
+			sub := strings.Repeat("s", n)
+			raw, err := jwt.NewRawJWT(&jwt.RawJWTOptions{Subject: &sub, WithoutExpiration: true})
+			chk(t, err)
+			raws[k] = raw
+		}
+		return func(i int) ([]byte, string) {
+			_, _, cls := input(i)
+			s, err := p.SignAndEncode(raws[i%len(lens)])
+			chk(t, err)
+			return []byte(s), cls
+		}
 	}
 	vt.Fatal("no randomized call for class %s", t.Class)
 	return nil
@@ -186,8 +234,13 @@ type sink struct {
 	evs []vt.Ev
 }
 
-func (s *sink) emit(out []byte, h, inst int, aux string) {
+func (s *sink) emit(out []byte, h, inst int, aux string) { s.emitCls(out, h, inst, aux, "") }
+
+func (s *sink) emitCls(out []byte, h, inst int, aux, cls string) {
 	e := vt.Ev{"ev": "emit", "key": s.key, "out": vt.Hex(out), "p": s.p, "h": h, "inst": inst, "k": s.k}
+	if cls != "" {
+		e["cls"] = cls
+	}
 	if aux != "" {
 		e["aux"] = aux
 	}
@@ -217,6 +270,44 @@ func runBlock(b block, ts []conc.Target, proc int) []vt.Ev {
 				vt.Fatal("Manager.AddNewKeyFromParameters: %v", err)
 			}
 			s.emit(idBytes(id), 1, 0, fmt.Sprintf("p%d-B", proc))
+		}
+		// manager D: ids handed out ACROSS Delete. A deleted key's id stays unavailable: (1) a random draw that hits
+		// it (scripted through the verif hook keyset.VerifDraw) must be re-drawn, (2) a key that requires it must be
+		// refused. Every id the manager hands out is logged; "manager,id" must never repeat.
+		md := keyset.NewManager()
+		emitD := func(id uint32) { s.emit(idBytes(id), 3, 0, fmt.Sprintf("p%d-D", proc)) }
+		p0, err := md.Add(tmpl)
+		must(err, "Manager.Add")
+		must(md.SetPrimary(p0), "Manager.SetPrimary")
+		emitD(p0)
+		tinkPrm := conc.Find(ts, "AESGCM128/TINK").Params.(*aesgcm.Parameters)
+		for c := 0; c < 8 && s.k+2 < per; c++ {
+			x, err := md.Add(tmpl)
+			must(err, "Manager.Add")
+			emitD(x)
+			must(md.Delete(x), "Manager.Delete")
+			if c%2 == 0 {
+				first := true
+				keyset.VerifDraw = func(real uint32) uint32 {
+					if first {
+						first = false
+						return x
+					}
+					return real
+				}
+				y, err := md.Add(tmpl)
+				keyset.VerifDraw = nil
+				must(err, "Manager.Add")
+				emitD(y)
+			} else {
+				kb, err := secretdata.NewBytesFromRand(16)
+				must(err, "key bytes")
+				k, err := aesgcm.NewKey(kb, x, tinkPrm)
+				must(err, "aesgcm.NewKey")
+				if id, err := md.AddKey(k); err == nil { // handed out: logged (a repeat if it is the deleted id)
+					emitD(id)
+				}
+			}
 		}
 		for i := 0; s.k < per; i++ {
 			h, err := keyset.NewHandle(tmpl)
@@ -249,7 +340,11 @@ func runBlock(b block, ts []conc.Target, proc int) []vt.Ev {
 				if inst == nInstances-1 && each >= 2*nGoroutines {
 					// the last instance is shared by several goroutines calling at once: state kept in the primitive
 					// (a nonce scratch buffer, a counter) repeats or tears values only under concurrency
-					outs := make([][][]byte, nGoroutines)
+					type oc struct {
+						out []byte
+						cls string
+					}
+					outs := make([][]oc, nGoroutines)
 					start := make(chan struct{})
 					var wg sync.WaitGroup
 					for g := 0; g < nGoroutines; g++ {
@@ -258,7 +353,8 @@ func runBlock(b block, ts []conc.Target, proc int) []vt.Ev {
 							defer wg.Done()
 							<-start
 							for i := g; i < each; i += nGoroutines {
-								outs[g] = append(outs[g], call())
+								o, c := call(i)
+								outs[g] = append(outs[g], oc{o, c})
 							}
 						}(g)
 					}
@@ -266,18 +362,25 @@ func runBlock(b block, ts []conc.Target, proc int) []vt.Ev {
 					wg.Wait()
 					for g := range outs {
 						for _, o := range outs[g] {
-							s.emit(o, h, inst, "")
+							s.emitCls(o.out, h, inst, "", o.cls)
 						}
 					}
 					continue
 				}
 				for i := 0; i < each; i++ {
-					s.emit(call(), h, inst, "")
+					o, c := call(i + inst) // the instances start at different classes
+					s.emitCls(o, h, inst, "", c)
 				}
 			}
 		}
 	}
 	return s.evs
+}
+
+func must(err error, what string) {
+	if err != nil {
+		vt.Fatal("%s: %v", what, err)
+	}
 }
 
 func idBytes(id uint32) []byte {
@@ -298,7 +401,15 @@ func runProc(keys, out string, proc int) {
 	res := make([][]vt.Ev, len(kf.Blocks))
 	sem := make(chan struct{}, runtime.NumCPU())
 	var wg sync.WaitGroup
+	for i, b := range kf.Blocks { // key ids first, alone: the scripted draw hook is process-global
+		if b.Kind == "keyid" {
+			res[i] = runBlock(b, ts, proc)
+		}
+	}
 	for i, b := range kf.Blocks {
+		if b.Kind == "keyid" {
+			continue
+		}
 		wg.Add(1)
 		sem <- struct{}{}
 		go func(i int, b block) {
